@@ -261,6 +261,21 @@ def variants(case, labels, vec):
     require(labels_equal(lf, labels) and core.close(vf_, vec, 1e-12, 1e-13 * scale),
             'Fortran-ordered input: %s vs C-ordered %s' % (core._short(vf_), core._short(vec)),
             'c-vs-fortran')
+    # read-only float64 storage (memory-mapped file, np.broadcast_to / np.frombuffer result, array
+    # with flags.writeable = False, pandas copy-on-write export): the values held are what counts,
+    # whatever the layout (C / Fortran / strided / transposed view by shape), with or without NaNs
+    dro = make_dataset(case, x.astype(np.float64))
+    frozen = dro.measurements
+    frozen.flags.writeable = False
+    before = frozen.copy()
+    rro = lib(calc_rdm_unbalanced, dro, on_error='violation',
+              sig='raises:calc_rdm_unbalanced:readonly', **call_kwargs(case))
+    vro = np.asarray(rro.dissimilarities, dtype=float)
+    require(vro.shape == vec.shape and core.close(vro, vec, 1e-12, 1e-13 * scale),
+            'read-only float64 input: %s vs writable %s' % (core._short(vro), core._short(vec)),
+            'readonly-vs-writable')
+    require(np.array_equal(frozen, before, equal_nan=True),
+            'read-only measurements changed by the call', 'readonly:mutated')
     # integer dtype
     if not has_mask(case) and np.all(x == np.round(x)):
         xi = x.astype(np.int64)
@@ -461,6 +476,25 @@ def check_single_pair(case, labels, vec):
                           sig='raises:calc_one_similarity', **kw)
             s[a, b] = float(val)
             w[a, b] = float(wt)
+    # the helper on read-only float64 storage (sub-datasets cut out of a memory-mapped array):
+    # same value and weight as on writable copies, first condition pair
+    if known_region(case) is None and n >= 2:
+        ro = []
+        for a in (0, 1):
+            d_ = Dataset(gen.relayout(x[rows[a]].astype(np.float64)))
+            d_.measurements.flags.writeable = False
+            ro.append(d_)
+        if crossval:
+            cva, cvb = codes[rows[0]], codes[rows[1]]
+        else:
+            cva = np.arange(len(rows[0]), dtype=np.int64)
+            cvb = -1 - np.arange(len(rows[1]), dtype=np.int64)
+        val, wt = lib(calc_one_similarity, ro[0], ro[1], cva, cvb, on_error='violation',
+                      sig='raises:calc_one_similarity:readonly', **kw)
+        require(core.close(float(val), s[0, 1], 1e-12, 1e-300) and float(wt) == w[0, 1],
+                'calc_one_similarity(%r,%r) on read-only float64 input: (%r, %r), on writable copies '
+                '(%r, %r)' % (labels[0], labels[1], float(val), float(wt), s[0, 1], w[0, 1]),
+                'single-pair:readonly')
     got = vec_by_pairs(vec[0], n)
     for a in range(n):
         for b in range(a, n):
